@@ -186,6 +186,13 @@ def thr_plan(rng):
         noise = int(rng.random() < 0.4)
         lines.append('P %d %d %d' % (rng.choice([0, 0, 5, 30, 120]) if not noise else rng.choice([30, 120, 400]), rng.randrange(1 << 30), noise))
         silent = rng.random() < 0.25
+        if rng.random() < 0.1:
+            # nobody is answered, one call has a long deadline and the others short ones: each deadline is the call's own,
+            # whoever happens to be holding the connection's I/O path
+            long_one = rng.randrange(nt)
+            for t in range(nt):
+                lines.append('C b %d 0' % (6000 if t == long_one else rng.choice([300, 600])))
+            continue
         for t in range(nt):
             ans = 0 if (silent and rng.random() < 0.5) else 1
             # (without a main loop that runs DBusTimeouts only a blocking wait can time out: unanswered calls block)
